@@ -5,6 +5,7 @@ CONSTANTS
   OORD <- t_OORD
   REGOPS <- t_REGOPS
   VAL <- t_VAL
+  VALT <- t_VALT
   PREC <- t_PREC
   U64 <- t_U64
   EPOCH0 <- t_EPOCH0
